@@ -49,11 +49,24 @@ Drop(x) == /\ x \in alive /\ alive' = alive \ {x}
 Read(x, i) == /\ x \in alive /\ i \in 1..Len(i2t[x]) /\ err = ""
               /\ err' = IF ~cells[i2t[x][i]].live THEN "use-after-free" ELSE ""
               /\ UNCHANGED <<cells, t2i, i2t, alive>>
-Next == \/ \E x \in Inst : NewInst(x) \/ Drop(x)
+\* std::mem::swap of two live instances: the VALUES change places; heap cells follow their owner
+Swap(x, y) == /\ x \in alive /\ y \in alive /\ x # y
+              /\ t2i' = [t2i EXCEPT ![x] = t2i[y], ![y] = t2i[x]]
+              /\ i2t' = [i2t EXCEPT ![x] = i2t[y], ![y] = i2t[x]]
+              /\ cells' = [d \in DOMAIN cells |-> IF cells[d].owner = x THEN [cells[d] EXCEPT !.owner = y]
+                                                 ELSE IF cells[d].owner = y THEN [cells[d] EXCEPT !.owner = x] ELSE cells[d]]
+              /\ UNCHANGED <<alive, err>>
+\* moving an instance (into a Box, a Vec, by value) relocates the struct, never the heap cells its keys own:
+\* a deliberate no-op of the model, named so that traces can carry it
+Move(x) == x \in alive /\ UNCHANGED vars
+Next == \/ \E x \in Inst : NewInst(x) \/ Drop(x) \/ Move(x)
+        \/ \E x, y \in Inst : Swap(x, y)
         \/ \E x \in Inst, t \in Terms : Ensure(x, t)
         \/ \E x, y \in Inst : Clone(x, y)
         \/ \E x \in Inst, i \in 1..Cardinality(Terms) : Read(x, i)
 Spec == Init /\ [][Next]_vars
+\* abstract content of an instance: the terms it answers for
+Content(x) == DOMAIN t2i[x]
 NoUseAfterFree == err = ""
 SelfContained == \A x \in alive : \A i \in 1..Len(i2t[x]) : cells[i2t[x][i]].owner = x
 NoDangling == \A x \in alive : \A i \in 1..Len(i2t[x]) : cells[i2t[x][i]].live
